@@ -1011,3 +1011,34 @@ func (b *TermBank) covers(ds []*Term, depth int) bool {
 	}
 	return false
 }
+
+// Index builds the absolute element index off+idx in a trigger-friendly
+// normal form (+ root rest): root is the slice's own base offset (the first
+// non-literal summand of off), rest everything else. A quantified fact
+// "forall k: a[root + k] ..." then E-matches an access a[root + (d + i)] made
+// through a sub-slice, which a flattened sum (+ root d i) does not.
+func (b *TermBank) Index(off, idx *Term) *Term {
+	if off.IsLit() || idx.IsLit() && idx.Val.Sign() == 0 {
+		return b.Add(off, idx)
+	}
+	root := off
+	var restArgs []*Term
+	if off.Op == "+" {
+		root = nil
+		for _, a := range off.Args {
+			if root == nil && !a.IsLit() {
+				root = a
+				continue
+			}
+			restArgs = append(restArgs, a)
+		}
+		if root == nil {
+			return b.Add(off, idx)
+		}
+	}
+	rest := b.Add(append(restArgs, idx)...)
+	if rest.IsLit() && rest.Val.Sign() == 0 {
+		return root
+	}
+	return b.intern(&Term{Op: "+", Args: []*Term{root, rest}, Sort: IntSort})
+}
